@@ -1,6 +1,9 @@
 import SlimModel.Basic
 import Driver.Trie
 import Driver.Idx
+import Driver.Wire
+import Driver.Enc
+import Driver.Arr
 /-
   Driver.Loop — the model side of the line protocol (see harness/lp/lp.go).
 
@@ -15,6 +18,9 @@ namespace Driver
 structure DState where
   trie : Trie.State := Trie.init
   idx : Idx.State := Idx.init
+  wire : Wire.State := Wire.init
+  enc : Enc.State := Enc.init
+  arr : Arr.State := Arr.init
 
 def famOf (tok : String) : String := (tok.splitOn ".").headD ""
 
@@ -24,6 +30,9 @@ def dispatch (st : DState) (line : String) : DState × String :=
   match famOf (toks.headD "") with
   | "trie" => let (s, a) := Trie.step st.trie toks; ({ st with trie := s }, a)
   | "idx" => let (s, a) := Idx.step st.idx toks; ({ st with idx := s }, a)
+  | "wire" => let (s, a) := Wire.step st.wire toks; ({ st with wire := s }, a)
+  | "enc" => let (s, a) := Enc.step st.enc toks; ({ st with enc := s }, a)
+  | "arr" => let (s, a) := Arr.step st.arr toks; ({ st with arr := s }, a)
   | _ => (st, "bad-op")
 
 partial def loop (inp out : IO.FS.Stream) (st : DState) : IO Unit := do
